@@ -182,6 +182,15 @@ def create(
     return
 
 
+def _absolute_root_path(root_path):
+    """the root folder as an absolute path; several separators at its end name the same folder as one of them"""
+    if not os.path.isabs(root_path):
+        root_path = os.path.join(os.getcwd(), root_path)
+    if root_path.endswith(os.sep + os.sep):
+        root_path = root_path.rstrip(os.sep) + os.sep
+    return root_path
+
+
 def create_for_folder_subcommand(
     root_path,
     verbose,
@@ -210,8 +219,7 @@ def create_for_folder_subcommand(
     """
     logger.verbose_logging = verbose
 
-    if not os.path.isabs(root_path):
-        root_path = os.path.join(os.getcwd(), root_path)
+    root_path = _absolute_root_path(root_path)
 
     logger.verbose(f"Creating new generation for folder at path: {root_path} ...")
 
@@ -446,8 +454,7 @@ def create_for_single_files_subcommand(
     """
     logger.verbose_logging = verbose
 
-    if not os.path.isabs(root_path):
-        root_path = os.path.join(os.getcwd(), root_path)
+    root_path = _absolute_root_path(root_path)
 
     assert len(single_file) != 0
 
@@ -624,8 +631,7 @@ def verify_entire_folder(
     """
     logger.verbose_logging = verbose
 
-    if not os.path.isabs(root_path):
-        root_path = os.path.join(os.getcwd(), root_path)
+    root_path = _absolute_root_path(root_path)
 
     if single_file is not None and not os.path.isabs(single_file):
         single_file = os.path.join(root_path, single_file)
@@ -727,8 +733,7 @@ def verify_directory_hash_subcommand(
     """
     logger.verbose_logging = verbose
 
-    if not os.path.isabs(root_path):
-        root_path = os.path.join(os.getcwd(), root_path)
+    root_path = _absolute_root_path(root_path)
 
     logger.verbose(f"check folder at path: {root_path}")
 
@@ -1073,8 +1078,7 @@ def diff_entire_folder_against_full_history_subcommand(root_path, verbose, ignor
     """
     logger.verbose_logging = verbose
 
-    if not os.path.isabs(root_path):
-        root_path = os.path.join(os.getcwd(), root_path)
+    root_path = _absolute_root_path(root_path)
 
     logger.verbose(f"check folder at path: {root_path}")
 
@@ -1241,8 +1245,7 @@ def flatten_history(
 ):
     logger.verbose_logging = verbose
 
-    if not os.path.isabs(root_path):
-        root_path = os.path.join(os.getcwd(), root_path)
+    root_path = _absolute_root_path(root_path)
 
     logger.verbose(f"Flattening folder at path: {root_path} ...")
 
@@ -1358,8 +1361,7 @@ def info_for_entire_history(root_path, verbose):
 
     logger.verbose_logging = verbose
 
-    if not os.path.isabs(root_path):
-        root_path = os.path.join(os.getcwd(), root_path)
+    root_path = _absolute_root_path(root_path)
 
     logger.info(f"Info with history at path: {root_path}")
 
@@ -1396,8 +1398,7 @@ def info_for_single_file(root_path, verbose, single_file):
 
     logger.verbose_logging = verbose
 
-    if not os.path.isabs(root_path):
-        root_path = os.path.join(os.getcwd(), root_path)
+    root_path = _absolute_root_path(root_path)
 
     logger.info(f"Info with history at path: {root_path}")
 
